@@ -144,4 +144,10 @@ theorem ct_version_preserved (s : SCT β) (h : WFSct s) (v : Nat) (hv : v < 256)
   obtain ⟨_, h2, h3, h4, h5, h6, h7⟩ := h
   exact ⟨hv, h2, h3, h4, h5, h6, by simpa [encSctContent] using h7⟩
 
+/-! non-vacuity (kernel-evaluated): unregistered code points in a raw record (type 0x99, version 0x1234), an alert
+    (level 7, description 0xee) and an extension (type 0x1234) come back unchanged -/
+example : parseRawRecord (β := Fin 256) [0x99, 0x12, 0x34, 0, 1, 5, 6] = .ok [6] ⟨⟨0x99, 0x1234, 1⟩, [5]⟩ := by decide +kernel
+example : parseMessageAlert (β := Fin 256) [7, 0xee] = .ok [] (.alert 7 0xee) := by decide +kernel
+example : parseExtensionD (β := Fin 256) .generic [0x12, 0x34, 0, 1, 9] = .ok [] (.unknown 0x1234 [9]) := by decide +kernel
+
 end Tls
